@@ -68,6 +68,50 @@ fn expect_http(s: &mut Session, method: &str, target: &str, want: Option<(&str, 
     }
 }
 
+/// the application closes in the middle of its handshake: every prefix of a SOCKS5 greeting + request (each address
+/// kind), of a plain HTTP request and of a CONNECT request, followed by end of stream.  The handshake must end (no
+/// panic, no waiting for bytes that cannot come), and may open a tunnel only where the bytes received already decide it.
+pub fn handshake_early_close(s: &mut Session, thorough: bool) {
+    let kinds: Vec<String> = vec!["d:6578616d706c652e6f7267:443".into(), "4:7f000001:8080".into(), "6:20010db8000000000000000000000001:53".into()];
+    for (ki, addr) in kinds.iter().enumerate() {
+        if ki > 0 && !thorough {
+            continue;
+        }
+        s.begin_case(&format!("handshake-socks5-early-close:{}", ki));
+        let enc = unhex(&s.run(&format!("addr.enc s5 {}", addr))).unwrap_or_default();
+        let request = [vec![5u8, 1, 0], enc].concat();
+        let greeting = vec![5u8, 2, 0, 2];
+        let mut runs: Vec<String> = (1..greeting.len()).map(|k| format!("hs.run socks5 {} split=1 marker=-", hex(&greeting[..k]))).collect();
+        runs.push(format!("hs.run socks5 {} split=1 marker=-", hex(&greeting)));
+        for k in 1..request.len() {
+            runs.push(format!("hs.run socks5 {};{} split=1 marker=-", hex(&greeting), hex(&request[..k])));
+        }
+        for op in runs {
+            let r = s.run(&op);
+            if r.starts_with("panic") {
+                s.oracle_fail("panic:handshake-early-close", "the local handshake panicked when the application closed inside its SOCKS5 handshake");
+            } else if r.starts_with("wait") || r.starts_with("ok") {
+                s.oracle_fail("handshake-early-close", &format!("a SOCKS5 handshake cut short by the application's close did not end as refused: {}", &r[..r.len().min(60)]));
+            }
+        }
+        s.mark_nontrivial();
+    }
+    for (ki, req) in ["GET http://a.bc:81/x HTTP/1.1\r\nHost: a.bc\r\n\r\n", "CONNECT a.bc:443 HTTP/1.1\r\n\r\n"].iter().enumerate() {
+        s.begin_case(&format!("handshake-http-early-close:{}", ki));
+        let b = req.as_bytes();
+        let step = if thorough { 1 } else { 2 };
+        for k in (1..b.len()).step_by(step).chain([b.len() - 1]) {
+            let r = s.run(&format!("hs.run http {} marker=-", hex(&b[..k])));
+            if r.starts_with("panic") {
+                s.oracle_fail("panic:handshake-early-close", "the local handshake panicked when the application closed inside its HTTP request");
+            } else if r.starts_with("wait") {
+                s.oracle_fail("handshake-early-close", "an HTTP handshake cut short by the application's close kept waiting");
+            }
+        }
+        s.mark_nontrivial();
+    }
+}
+
 pub fn generate(s: &mut Session, tier: &str, rng: &mut Rng) {
     let thorough = tier == "thorough";
     // ---- the pure target parser on grammar-generated absolute-form targets
@@ -194,4 +238,5 @@ pub fn generate(s: &mut Session, tier: &str, rng: &mut Rng) {
         }
     }
     s.mark_nontrivial();
+    handshake_early_close(s, thorough);
 }
